@@ -356,6 +356,31 @@ def main():
 ''')
 
 
+P('coro', '''
+DATA = {}
+class Pause:
+    def __await__(self):
+        got = yield 'pause'
+        return 5 if got is None else got
+async def handler(n):
+    a = await Pause()
+    b = await Pause()
+    return a + b + n
+def main():
+    c = handler(1)
+    steps = []
+    r = None
+    try:
+        while True:
+            steps.append(c.send(None))
+    except StopIteration as e:
+        r = e.value
+    DATA['steps'] = steps
+    out('coro', r)
+    return r
+''')
+
+
 P('observed_access', '''
 DATA = {}
 class AuditedSettings(dict):
